@@ -1648,3 +1648,473 @@ def canonical_typestate_rule(chk, src, rule_check, rule_ensure):
                             probs.append(f"[{tag}] sweep pushes site {[x for x in me.log if x[0] != 'push' and x[0] != 'move'][0][1]} while the label centre is elsewhere")
             chk.ob(rule_ensure, f"{fn}[n={n}]: {ncfg} start configurations end in the advertised form", not probs, fi.where, probs[:3] or "advertised form", "advertised form", line=fi.node.lineno,
                    detail=f"{fn} must leave sites in the advertised canonical form with label centre and direction flag consistent, from every start configuration; " + "; ".join(probs[:2]))
+
+
+# ---------------------------------------------------------------------------------------------- renormalised-basis update
+class _Spec(Sym):
+    """a spectrum (singular values / eigenvalues of one decomposition); discarded weights and entropies derived from it are scripted numbers"""
+    def __init__(self, name, script, trail=()):
+        super().__init__(name)
+        self.script, self.trail = script, tuple(trail)
+
+    def _d(self, what):
+        return _Spec(self._name, self.script, self.trail + (what,))
+
+    def __pow__(self, o):
+        return self._d(f"**{o}")
+
+    def __getitem__(self, k):
+        if isinstance(k, slice) and (k.start is not None or k.stop is not None) and "sort" not in self.trail:
+            # the values of a blocked decomposition are sorted per sector only: a prefix / suffix of the raw list is not "the largest" / "the smallest"
+            self.script.setdefault("misuse", []).append(f"{self._name}[{k.start}:{k.stop}] taken from the unsorted spectrum of a blocked decomposition")
+        return self._d(f"[{k.start}:{k.stop}:{k.step}]" if isinstance(k, slice) else f"[{k}]")
+
+    def sum(self):
+        if self.script.get("misuse"):
+            return self.script["loss"][self._name]
+        if self.trail != ("sort", "[None:None:-1]", f"[{self.script['Mmax']}:None:None]", "**2"):
+            raise AnalysisError(f"discarded weight of {self._name} computed as {self.trail}: only sum(sort(s)[::-1][Mmax:]**2) is modelled")
+        return self.script["loss"][self._name]
+
+
+def update_mps_rule(chk, src, rules):
+    """abstract run of MatrixProduct._update_mps on a 4-site chain of abstract tensors: one- and two-site update, both directions, interior and boundary sites, single
+    coefficient tensor and state-averaged list, and the on-the-fly-swap branch (states and density operators, with and without the Jordan-Wigner sign, every mode, scripted
+    losses / entropies so that both outcomes occur).  Stand-ins at the stable interfaces (svd_qn.svd_qn / eigh_qn, select_basis, compute_m_trunc, _get_big_qn, Model)
+    record what they are given and return tagged factors.  rules = {"bond": rule id of the kept-count obligations, "labels": .., "store": .., "swap": ..}; a missing id
+    skips that group.  Returns (number of plain runs, number of swap runs that swapped)."""
+    from .. import ntensor as NTm
+    from ..ntensor import NT, Leg
+    fi = src.func(MP, "MatrixProduct._update_mps")
+    resolve = class_resolver(src, {"MatrixProduct": MP})
+    bonds, ph, qh = [2, 3, 5, 7, 11], [13, 17, 19, 23], [43, 47, 53, 59]
+    KU, KV, KNEW, NQ = 29, 31, 37, 41
+    OFSN = Sym("OFS", ofs_d=Sym("ofs_d"), ofs_ds=Sym("ofs_ds"), ofs_s=Sym("ofs_s"), ofs_debug=Sym("ofs_debug"))
+    FIXED = Sym("fixed")
+    CRIT = Sym("CompressCriteria", fixed=FIXED, threshold=Sym("threshold"), both=Sym("both"))
+    new = ("new",)
+
+    class QBig(Sym):
+        def __init__(self, name, shape):
+            super().__init__(name)
+            self.shape, self.ndim = tuple(shape), len(shape)
+
+    def Lk(i):
+        return ("S", i, "l")
+
+    def Rk(i):
+        return ("S", i, "r")
+
+    def Pk(i, nphys):
+        return [("S", i, f"p{j}") for j in range(nphys)]
+
+    def one(nsite, to_right, k, averaged, nphys=1, ofs=None, jw=False, script=None):
+        edges = []
+        script = script or {"Mmax": 0, "loss": {}, "entropy": {}}
+        cidx = [k] if nsite == 1 else [k, k + 1]
+        lo, hi = cidx[0], cidx[-1]
+        psz = lambda i: [ph[i], qh[i]][:nphys]
+
+        def site(i):
+            return NT(f"S{i}", [Leg(Lk(i), bonds[i])] + [Leg(k_, d_) for k_, d_ in zip(Pk(i, nphys), psz(i))] + [Leg(Rk(i), bonds[i + 1])], edges)
+
+        def coeff(name):
+            legs = [Leg(Lk(lo), bonds[lo])] + [Leg(k_, d_) for i in cidx for k_, d_ in zip(Pk(i, nphys), psz(i))] + [Leg(Rk(hi), bonds[hi + 1])]
+            return NT(name, legs, edges)
+        nl = 1 + nphys if (nsite == 2 or to_right) else 1
+        c0 = coeff("c")
+        lshape = [l.dim for l in c0.legs[:nl]] + [NQ]
+        rshape = [l.dim for l in c0.legs[nl:]] + [NQ]
+        qnbigl, qnbigr = QBig("qnbigl", lshape), QBig("qnbigr", rshape)
+        cstruct = [coeff(f"c{r}") for r in range(3)] if averaged else c0
+        rec = {"svd": [], "eigh": [], "trunc": [], "select": [], "bigqn": [], "model": []}
+
+        def merged(legs):
+            return Leg([(l.parts[0][0], l.parts[0][1]) for l in legs], 0) if len(legs) > 1 else legs[0]
+
+        def svd_qn(mat, ql, qr, qntot, QR=False, system=None, full_matrices=True):
+            n = len(rec["svd"]) + 1
+            nleft = ql.ndim - 1
+            if not isinstance(mat, NT) or [l.dim for l in mat.legs[:nleft]] != list(ql.shape[:-1]) or [l.dim for l in mat.legs[nleft:]] != list(qr.shape[:-1]):
+                raise ValueError(f"svd_qn: the axes of {mat!r} do not match the label blocks {ql._name}{ql.shape} / {qr._name}{qr.shape}")
+            rec["svd"].append({"mat": mat, "ql": ql, "qr": qr, "qntot": qntot, "QR": QR, "system": system, "full": full_matrices})
+            U = NT(f"U{n}", [merged(mat.legs[:nleft]), Leg((f"colsU{n}",), KU)], edges)
+            V = NT(f"V{n}", [merged(mat.legs[nleft:]), Leg((f"colsV{n}",), KV)], edges)
+            return U, _Spec(f"SU{n}", script), Sym(f"qnl{n}"), V, _Spec(f"SV{n}", script), Sym(f"qnr{n}")
+
+        def eigh_qn(mat, ql, qr, qntot, system=None):
+            half = mat.ndim // 2
+            rec["eigh"].append({"mat": mat, "ql": ql, "qr": qr, "system": system})
+            return NT("W", [merged(mat.legs[:half]), Leg(("colsW",), KU)], edges), _Spec("SW", script), Sym("qnW")
+
+        def compute_m_trunc(sigma, idx, left):
+            rec["trunc"].append((sigma, idx, left))
+            return Sym(f"m_trunc#{len(rec['trunc'])}")
+
+        def select_basis(vset, sset, qnlist, compset, Mmax, percent=0):
+            rec["select"].append({"vset": vset, "sset": sset, "qnlist": qnlist, "compset": compset, "Mmax": Mmax, "percent": percent})
+            ms = NT("ms", [vset.legs[0], Leg(new, KNEW)], edges)
+            comp = None if compset is None else NT("compms", [compset.legs[0], Leg(new, KNEW, scaled=(sset._name,))], edges)
+            return ms, KNEW, Sym(f"kept({qnlist._name})"), comp
+        basis = [Sym(f"basis{i}", dof=f"dof{i}") for i in range(4)]
+        model = Sym("model", basis=list(basis), ham_terms="ham_terms", dipole="dipole", output_ordering="output_ordering")
+        cc = Sym("compress_config", bonddim_should_set=False, ofs=ofs, ofs_swap_jw=jw, criteria=FIXED, bond_dim_max_value=script["Mmax"], compute_m_trunc=compute_m_trunc)
+        me = Chain(4, to_right, cls="MatrixProduct")
+        me.sites = [site(i) for i in range(4)]
+        me.qn = [f"old labels {i}" for i in range(5)]
+        me.qnidx = lo if nsite == 1 else (lo if to_right else hi)
+        me.compress_config, me.model, me.qntot = cc, model, Sym("qntot")
+
+        def get_big_qn(cidx_, swap=False):
+            rec["bigqn"].append((list(cidx_), swap))
+            if not swap:
+                return qnbigl, qnbigr, Sym("sigmaqn")
+            return (QBig("qnbigl2", lshape[:1] + rshape[:nphys] + [NQ]), QBig("qnbigr2", lshape[1:1 + nphys] + rshape[nphys:]), Sym("sigmaqn2"))
+        me._get_big_qn = get_big_qn
+
+        def mk_model(*a, **kw):
+            rec["model"].append((a, kw))
+            return Sym("new model", basis=list(a[0]) if a else kw.get("basis"))
+
+        def entropy(s):
+            if not isinstance(s, _Spec) or s.trail != ("**2",):
+                raise AnalysisError(f"entropy of {s!r}: only calc_vn_entropy(s**2) is modelled")
+            return script["entropy"][s._name]
+        npx = NTm.np_namespace(sort=lambda s: s._d("sort"), flip=lambda s: s._d("[None:None:-1]"))
+        it = SymInterp(src, resolve, {"np": npx, "xp": npx, "tensordot": NTm.tensordot, "moveaxis": NTm.moveaxis, "logger": Blob("logger"), "asnumpy": lambda x: x, "asxp": lambda x: x,
+                                      "svd_qn": Sym("svd_qn", svd_qn=svd_qn, eigh_qn=eigh_qn), "select_basis": select_basis, "isinstance": lambda x, t: False, "HolsteinModel": "HolsteinModel",
+                                      "OFS": OFSN, "CompressCriteria": CRIT, "Model": mk_model, "calc_vn_entropy": entropy, "Matrix": lambda x, *a: x})
+        it.max_depth = 10
+        it.check_asserts = True
+        res = it.call_function(fi, [me, cstruct, cidx, qnbigl, qnbigr], {"percent": Sym("percent")})
+        rec["misuse"] = list(script.get("misuse", []))
+        script.pop("misuse", None)
+        return me, rec, res, edges, (qnbigl, qnbigr, c0, basis, model)
+
+    def keys(t):
+        return t.keys() if isinstance(t, NT) else repr(t)
+
+    def chain_bad(edges):
+        """every contraction joins an axis with itself (the traced environment side / the new bond) or the two ends of one chain bond"""
+        return [(a, b) for a, ca, b, cb in edges if a != b and {a, b} not in [{Rk(i), Lk(i + 1)} for i in range(3)]]
+
+    def full(i, nphys=1):
+        return [Lk(i)] + Pk(i, nphys) + [Rk(i)]
+    # ---- plain updates
+    n_runs = n_swapped = 0
+    for nsite in (1, 2):
+        for to_right in (True, False):
+            for averaged in (False, True):
+                ks = ([1, 3] if to_right else [2, 0]) if nsite == 1 else [1]
+                for k in ks:
+                    n_runs += 1
+                    tag = f"_update_mps[{nsite}-site, to_right={to_right}, site {k}{', state-averaged' if averaged else ''}]"
+                    P = {"bond": [], "labels": [], "store": []}
+                    try:
+                        me, rec, res, edges, (qbl, qbr, c0, _, _) = one(nsite, to_right, k, averaged)
+                    except (ValueError, SymRaise) as e:
+                        P["store"].append(f"{type(e).__name__}: {e}")
+                        me = None
+                    if me is not None:
+                        lo, hi = (k, k) if nsite == 1 else (k, k + 1)
+                        want_sys = "L" if to_right else "R"
+                        if not averaged:
+                            if len(rec["svd"]) != 1 or rec["eigh"]:
+                                P["store"].append(f"{len(rec['svd'])} svd_qn / {len(rec['eigh'])} eigh_qn calls; expected one svd_qn")
+                            else:
+                                d = rec["svd"][0]
+                                if d["ql"] is not qbl or d["qr"] is not qbr or keys(d["mat"]) != keys(c0):
+                                    P["labels"].append("the decomposition does not get the coefficient tensor together with the block labels it was given")
+                                if d["system"] != want_sys:
+                                    P["store"].append(f"system={d['system']!r} for to_right={to_right}")
+                        else:
+                            if len(rec["eigh"]) != 1 or rec["svd"]:
+                                P["store"].append(f"{len(rec['svd'])} svd_qn / {len(rec['eigh'])} eigh_qn calls; expected one eigh_qn")
+                            else:
+                                d = rec["eigh"][0]
+                                sys_keys = keys(c0)[:qbl.ndim - 1] if to_right else keys(c0)[qbl.ndim - 1:]
+                                if keys(d["mat"]) != sys_keys + sys_keys:
+                                    P["store"].append(f"averaged density matrix over axes {keys(d['mat'])}; expected the {'left' if to_right else 'right'} block twice {sys_keys}")
+                                if d["ql"] is not qbl or d["qr"] is not qbr:
+                                    P["labels"].append("eigh_qn does not get the block labels the update was given")
+                                if d["system"] != want_sys:
+                                    P["store"].append(f"system={d['system']!r} for to_right={to_right}")
+                        want_site = lo if to_right else hi
+                        if len(rec["trunc"]) != 1:
+                            P["bond"].append(f"compute_m_trunc called {len(rec['trunc'])} times")
+                        else:
+                            sg, ix, left = rec["trunc"][0]
+                            want_spec = "SW" if averaged else ("SU1" if to_right else "SV1")
+                            if ix != want_site or left is not to_right:
+                                P["bond"].append(f"compute_m_trunc(.., {ix}, {left}); expected site {want_site} (cidx[0] when sweeping right, cidx[-1] when sweeping left) and direction {to_right}")
+                            if getattr(sg, "_name", None) != want_spec or getattr(sg, "trail", ()) != ():
+                                P["bond"].append(f"kept count computed from {sg!r}; expected the spectrum {want_spec} of the kept side")
+                        if len(rec["select"]) != 1:
+                            P["store"].append(f"select_basis called {len(rec['select'])} times")
+                        else:
+                            s_ = rec["select"][0]
+                            want = ("W", "SW", "qnW", None) if averaged else (("U1", "SU1", "qnl1", "V1") if to_right else ("V1", "SV1", "qnr1", "U1"))
+                            got = (s_["vset"]._name, s_["sset"]._name, s_["qnlist"]._name, getattr(s_["compset"], "_name", None))
+                            if got != want:
+                                P["labels"].append(f"select_basis(vectors {got[0]}, values {got[1]}, labels {got[2]}, complement {got[3]}); expected {want}: vectors, values and labels of one factor")
+                            if getattr(s_["Mmax"], "_name", "") != "m_trunc#1":
+                                P["bond"].append(f"select_basis limited by {s_['Mmax']!r}, not by the computed kept count")
+                            if getattr(s_["percent"], "_name", None) != "percent":
+                                P["store"].append("percent is not passed on to select_basis")
+                        exp = {}
+                        interior = True
+                        if nsite == 2:
+                            exp[lo] = [Lk(lo)] + Pk(lo, 1) + [new]
+                            exp[hi] = [new] + Pk(hi, 1) + [Rk(hi)]
+                            want_qn, want_centre, iso = hi, (hi if to_right else lo), (lo if to_right else hi)
+                        else:
+                            interior = (k != 3) if to_right else (k != 0)
+                            iso = k
+                            if interior:
+                                nb = k + 1 if to_right else k - 1
+                                exp[k] = ([Lk(k)] + Pk(k, 1) + [new]) if to_right else ([new] + Pk(k, 1) + [Rk(k)])
+                                exp[nb] = ([new] + Pk(nb, 1) + [Rk(nb)]) if to_right else ([Lk(nb)] + Pk(nb, 1) + [new])
+                                want_qn, want_centre = (k + 1 if to_right else k), nb
+                            else:
+                                exp[k] = full(k)
+                                want_qn, want_centre = None, k
+                        for i in range(4):
+                            if keys(me.sites[i]) != exp.get(i, full(i)):
+                                P["store"].append(f"site {i} ends with axes {keys(me.sites[i])}; expected {exp.get(i, full(i))}")
+                        if chain_bad(edges):
+                            P["store"].append(f"contractions over unrelated axes: {chain_bad(edges)[:2]}")
+                        P["store"].extend(rec["misuse"])
+                        if not P["store"] and not averaged and interior:
+                            for i in exp:
+                                sc = [x for l in me.sites[i].legs for x in l.scaled]
+                                if i == iso and sc:
+                                    P["store"].append(f"the isometric site {i} carries the weights {sc}")
+                                elif i != iso and len(sc) != 1:
+                                    P["store"].append(f"the centre site {i} carries the weights {sc}; expected the kept singular values once")
+                        for b in range(5):
+                            if b == want_qn:
+                                w = "kept(qnW)" if averaged else ("kept(qnl1)" if to_right else "kept(qnr1)")
+                                if getattr(me.qn[b], "_name", None) != w:
+                                    P["labels"].append(f"labels of bond {b}: {me.qn[b]!r}; expected the labels of the kept vectors {w}")
+                            elif me.qn[b] != f"old labels {b}":
+                                P["labels"].append(f"labels of bond {b} overwritten with {me.qn[b]!r}")
+                        if me.qnidx != want_centre:
+                            P["labels"].append(f"label centre {me.qnidx}; expected {want_centre}")
+                        if not averaged and res is not None:
+                            P["store"].append(f"returns {res!r} for a single coefficient tensor")
+                        if averaged:
+                            if not isinstance(res, list) or len(res) != 3:
+                                P["store"].append(f"state-averaged update returns {res!r}; expected one rotated tensor per root")
+                            else:
+                                if nsite == 2:
+                                    w = ([new] + Pk(hi, 1) + [Rk(hi)]) if to_right else ([Lk(lo)] + Pk(lo, 1) + [new])
+                                elif interior:
+                                    w = exp[nb]
+                                else:
+                                    w = full(k)
+                                for r_, t in enumerate(res):
+                                    if keys(t) != w:
+                                        P["store"].append(f"rotated tensor of root {r_} has axes {keys(t)}; expected {w}")
+                                        break
+                    for grp, probs in P.items():
+                        if rules.get(grp):
+                            chk.ob(rules[grp], f"{tag}: {grp}", not probs, fi.where, probs[:3] or "as specified", "as specified", line=fi.node.lineno, detail="_update_mps: " + (probs[0] if probs else ""))
+    # ---- on-the-fly swap: whichever arrangement is chosen, everything that is stored comes from that arrangement
+    if rules.get("swap"):
+        scripts = {"first arrangement better": {"Mmax": 5, "loss": {"SU1": 0.1, "SU2": 0.2}, "entropy": {"SU1": 0.3, "SU2": 0.6}},
+                   "swapped arrangement better": {"Mmax": 5, "loss": {"SU1": 0.2, "SU2": 0.1}, "entropy": {"SU1": 0.6, "SU2": 0.3}},
+                   "no loss, swapped arrangement less entangled": {"Mmax": 5, "loss": {"SU1": 0.0, "SU2": 0.0}, "entropy": {"SU1": 0.6, "SU2": 0.3}}}
+        for mode in ("ofs_d", "ofs_ds", "ofs_s", "ofs_debug"):
+            for nphys, jw in ((1, False), (1, True), (2, False)):
+                for to_right in (True, False):
+                    probs, outcomes = [], []
+                    for sname, script in scripts.items():
+                        k, lo, hi = 1, 1, 2
+                        try:
+                            me, rec, res, edges, (qbl, qbr, c0, basis, model) = one(2, to_right, k, False, nphys=nphys, ofs=getattr(OFSN, mode), jw=jw, script=script)
+                        except (ValueError, SymRaise) as e:
+                            probs.append(f"[{sname}] {type(e).__name__}: {e}")
+                            continue
+                        if len(rec["svd"]) != 2 or len(rec["select"]) != 1 or len(rec["trunc"]) != 1:
+                            probs.append(f"[{sname}] {len(rec['svd'])} decompositions, {len(rec['select'])} selections, {len(rec['trunc'])} kept counts; expected 2, 1, 1")
+                            continue
+                        d1, d2 = rec["svd"]
+                        ck = keys(c0)
+                        swapped_keys = [ck[0]] + ck[1 + nphys:1 + 2 * nphys] + ck[1:1 + nphys] + [ck[-1]]
+                        if keys(d1["mat"]) != ck or d1["ql"] is not qbl or d1["qr"] is not qbr:
+                            probs.append(f"[{sname}] the first decomposition is not that of the given tensor with the given labels")
+                        if keys(d2["mat"]) != swapped_keys:
+                            probs.append(f"[{sname}] the second decomposition sees axes {keys(d2['mat'])}; expected the two sites exchanged {swapped_keys}")
+                        if (rec["bigqn"] != [([lo, hi], True)]) or d2["ql"]._name != "qnbigl2" or d2["qr"]._name != "qnbigr2":
+                            probs.append(f"[{sname}] the second decomposition does not use the labels of the exchanged arrangement (_get_big_qn(cidx, swap=True): {rec['bigqn']})")
+                        if d1["system"] != d2["system"] or d1["system"] != ("L" if to_right else "R"):
+                            probs.append(f"[{sname}] system sides {d1['system']!r}, {d2['system']!r}")
+                        pt = getattr(d2["mat"], "patches", ())
+                        if jw:
+                            if len(pt) != 1 or pt[0][0] != "(slice(None, None, None), 1, 1, slice(None, None, None))" or "-1" not in pt[0][2]:
+                                probs.append(f"[{sname}] Jordan-Wigner sign: patches {[x[:2] for x in pt]}; expected the doubly occupied block [:, 1, 1, :] negated once")
+                            if getattr(d1["mat"], "patches", ()) or getattr(c0, "patches", ()):
+                                probs.append(f"[{sname}] the Jordan-Wigner sign is written into the caller's tensor")
+                        elif pt:
+                            probs.append(f"[{sname}] blocks overwritten without the Jordan-Wigner flag: {[x[:2] for x in pt]}")
+                        s_ = rec["select"][0]
+                        got = (s_["vset"]._name, s_["sset"]._name, s_["qnlist"]._name, getattr(s_["compset"], "_name", None))
+                        n = got[0][-1]
+                        if n not in "12" or got != ((f"U{n}", f"SU{n}", f"qnl{n}", f"V{n}") if to_right else (f"V{n}", f"SV{n}", f"qnr{n}", f"U{n}")):
+                            probs.append(f"[{sname}] select_basis{got}: factors of two different arrangements are mixed")
+                            continue
+                        did_swap = n == "2"
+                        outcomes.append(did_swap)
+                        sg = rec["trunc"][0][0]
+                        if getattr(sg, "_name", None) != (f"SU{n}" if to_right else f"SV{n}"):
+                            probs.append(f"[{sname}] kept count from {sg!r}, basis from arrangement {n}")
+                        a, b_ = (hi, lo) if did_swap else (lo, hi)
+                        w_lo, w_hi = [Lk(lo)] + Pk(a, nphys) + [new], [new] + Pk(b_, nphys) + [Rk(hi)]
+                        if keys(me.sites[lo]) != w_lo or keys(me.sites[hi]) != w_hi:
+                            probs.append(f"[{sname}] arrangement {n} chosen, but the sites end with axes {keys(me.sites[lo])} / {keys(me.sites[hi])}; expected {w_lo} / {w_hi}")
+                        wq = f"kept(qnl{n})" if to_right else f"kept(qnr{n})"
+                        if getattr(me.qn[hi], "_name", None) != wq or any(me.qn[b] != f"old labels {b}" for b in (0, 1, 3, 4)):
+                            probs.append(f"[{sname}] labels of bond {hi}: {me.qn[hi]!r}; expected {wq}, the others untouched")
+                        if did_swap:
+                            wb = [basis[0], basis[2], basis[1], basis[3]]
+                            if len(rec["model"]) != 1:
+                                probs.append(f"[{sname}] sites exchanged but the model is rebuilt {len(rec['model'])} times")
+                            else:
+                                a_, kw_ = rec["model"][0]
+                                args = list(a_) + [kw_.get(x) for x in ("basis", "ham_terms", "dipole", "output_ordering")[len(a_):]]
+                                if list(args[0]) != wb or args[1:] != ["ham_terms", "dipole", "output_ordering"]:
+                                    probs.append(f"[{sname}] new model built from {[getattr(x, '_name', x) for x in args[0]]}, {args[1:]}; expected the two sites exchanged, same terms, dipole, output ordering")
+                                if getattr(me.model, "_name", None) != "new model":
+                                    probs.append(f"[{sname}] sites exchanged but the state keeps its old model")
+                            if [x._name for x in model.basis] != [f"basis{i}" for i in range(4)]:
+                                probs.append(f"[{sname}] the old model's basis list is modified in place (it is shared with every other object built on that model)")
+                            n_swapped += 1
+                        elif rec["model"] or me.model is not model:
+                            probs.append(f"[{sname}] arrangement kept but the model is rebuilt")
+                        if chain_bad(edges):
+                            probs.append(f"[{sname}] contractions over unrelated axes")
+                        probs.extend(f"[{sname}] {x}" for x in rec["misuse"])
+                    chk.ob(rules["swap"], f"_update_mps[swap mode {mode}, {'density operator' if nphys == 2 else 'state'}{', Jordan-Wigner sign' if jw else ''}, to_right={to_right}]", not probs, fi.where,
+                           probs[:3] or f"consistent; arrangement exchanged in {sum(outcomes)} of {len(outcomes)} scenarios", "tensors, labels, kept count, complement and model all follow the chosen arrangement", line=fi.node.lineno,
+                           detail="on-the-fly swap: " + (probs[0] if probs else ""))
+    return n_runs, n_swapped
+
+
+# ---------------------------------------------------------------------------------------------- select_basis
+def select_basis_rule(chk, src, rule_co, rule_sort):
+    """abstract run of lib.select_basis on matrices whose columns carry their provenance (vector j, complement j scaled by value j) with concrete distinct values and
+    labels from three sectors: the kept columns are the largest `min(n, Mmax)` values (percent = 0: in descending order; percent > 0: every sector first contributes its own
+    largest int(nbasis * percent / sectors), the rest are the largest of what remains); vectors, complement (times its value), labels and the count are selected by the
+    one index list, without duplicates; a missing complement or one with fewer columns is tolerated as in the source's contract."""
+    LIB = "renormalizer/mps/lib.py"
+    fi = src.func(LIB, "select_basis")
+
+    class Col(Sym):
+        def __init__(self, what, j, scale=()):
+            super().__init__(f"{what}{j}")
+            self.what, self.j, self.scale = what, j, tuple(scale)
+
+        def copy(self):
+            return Col(self.what, self.j, self.scale)
+
+        def __mul__(self, o):
+            return Col(self.what, self.j, self.scale + (o,))
+
+        __rmul__ = __mul__
+
+    class Mat(Sym):
+        """matrix addressed by columns only"""
+        def __init__(self, name, rows, ncols, cols=None):
+            super().__init__(name)
+            self.shape, self.dtype = (rows, ncols), f"dtype({name})"
+            self.cols = cols if cols is not None else [None] * ncols
+
+        def _col(self, k):
+            if not (isinstance(k, tuple) and len(k) == 2 and k[0] == slice(None)):
+                raise AnalysisError(f"{self._name}[{k!r}]: only whole columns are modelled")
+            return k[1]
+
+        def __getitem__(self, k):
+            j = self._col(k)
+            if isinstance(j, list):
+                return Mat(self._name, self.shape[0], len(j), [self.cols[x] for x in j])
+            if not 0 <= j < self.shape[1]:
+                raise SymRaise(f"IndexError: column {j} of {self._name} with {self.shape[1]} columns")
+            return self.cols[j]
+
+        def __setitem__(self, k, v):
+            self.cols[self._col(k)] = v
+
+        def __mul__(self, o):
+            if isinstance(o, list):
+                return Mat(self._name, self.shape[0], self.shape[1], [None if c is None else c * x for c, x in zip(self.cols, o)])
+            raise AnalysisError("matrix times a non-list")
+
+        def copy(self):
+            return Mat(self._name, self.shape[0], self.shape[1], list(self.cols))
+
+    def zeros(shape, dtype=None):
+        return Mat("zeros", shape[0], shape[1])
+    labels = [(0,), (1,), (1,), (2,), (0,), (1,), (2,), (1,)]
+    values = [0.30, 0.90, 0.10, 0.50, 0.70, 0.20, 0.05, 0.60]
+    n = len(values)
+    cases = [("percent 0, limit below the number of candidates", 4, 0, n), ("limit above the number of candidates", 20, 0, n), ("percent 0.7", 6, 0.7, n), ("percent 1", 6, 1, n),
+             ("no complement", 4, 0, None), ("complement with fewer columns", 6, 0, 5), ("limit 1", 1, 0, n)]
+    for name, mmax, percent, ncomp in cases:
+        vset = Mat("vset", 11, n, [Col("v", j) for j in range(n)])
+        compset = None if ncomp is None else Mat("compset", 13, ncomp, [Col("c", j) for j in range(ncomp)])
+        npx = OpenSym("np", make=lambda t: Blob(t), zeros=zeros, array=lambda x, *a, **k: list(x), asarray=lambda x, *a, **k: x)
+        it = SymInterp(src, None, {"np": npx, "xp": npx, "asxp": lambda x: x, "asnumpy": lambda x: x, "logger": Blob("logger")})
+        it.max_depth = 8
+        it.check_asserts = True
+        probs_co, probs_sort = [], []
+        try:
+            res = it.call_function(fi, [vset, list(values), [tuple(q) for q in labels], compset, mmax], {"percent": percent})
+        except SymRaise as e:
+            res = None
+            probs_co.append(f"raises {e}")
+        if res is not None:
+            if not (isinstance(res, tuple) and len(res) == 4 and isinstance(res[0], Mat)):
+                probs_co.append(f"returns {res!r}; expected (vectors, count, labels, complement)")
+            else:
+                ms, dim, qn, comp = res
+                idx = [getattr(c, "j", None) for c in ms.cols]
+                if any(not isinstance(c, Col) or c.what != "v" or c.scale for c in ms.cols):
+                    probs_co.append("a kept vector column is not a plain column of the vector set")
+                if dim != len(idx) or ms.shape[1] != len(idx):
+                    probs_co.append(f"count {dim} for {len(idx)} kept columns")
+                if [tuple(q) for q in qn] != [labels[j] for j in idx if j is not None]:
+                    probs_co.append(f"labels {list(qn)} do not belong to the kept columns {idx}")
+                if (comp is None) != (compset is None):
+                    probs_co.append("complement present / absent against the input")
+                if comp is not None:
+                    for k_, j in enumerate(idx):
+                        c = comp.cols[k_]
+                        if j is not None and j < ncomp:
+                            if not isinstance(c, Col) or c.what != "c" or c.j != j or list(c.scale) != [values[j]]:
+                                probs_co.append(f"complement column {k_} is {getattr(c, 'what', c)}{getattr(c, 'j', '')} x {getattr(c, 'scale', '')}; expected column {j} of the complement times its value {values[j]}")
+                                break
+                        elif c is not None:
+                            probs_co.append(f"complement column {k_} filled although the complement has no column {j}")
+                if len(set(idx)) != len(idx):
+                    probs_sort.append(f"duplicated columns {idx}")
+                want_n = min(n, mmax)
+                if len(idx) != want_n:
+                    probs_sort.append(f"{len(idx)} columns kept; expected min(candidates, Mmax) = {want_n}")
+                order = sorted(range(n), key=lambda j: -values[j])
+                if percent == 0:
+                    if idx != order[:want_n]:
+                        probs_sort.append(f"kept columns {idx}; expected the largest values in descending order {order[:want_n]}")
+                elif not probs_sort:
+                    sectors = sorted(set(labels))
+                    per = int(want_n * percent / len(sectors))
+                    first = set()
+                    for q in sectors:
+                        first |= set([j for j in order if labels[j] == q][:per])
+                    rest = [j for j in order if j not in first][:want_n - len(first)]
+                    if set(idx) != first | set(rest):
+                        probs_sort.append(f"kept columns {sorted(idx)}; expected {sorted(first)} (the largest {per} of every sector) and {sorted(rest)} (the largest of the rest)")
+        chk.ob(rule_co, f"select_basis[{name}]: vectors, complement x value, labels and count selected by one index list", not probs_co, fi.where, probs_co[:3] or "co-indexed", "co-indexed", line=fi.node.lineno,
+               detail="select_basis: " + (probs_co[0] if probs_co else ""))
+        chk.ob(rule_sort, f"select_basis[{name}]: the largest values are kept, at most Mmax, no duplicates", not probs_sort, fi.where, probs_sort[:3] or "largest kept", "largest kept", line=fi.node.lineno,
+               detail="select_basis must rank candidate vectors by descending singular value and keep at most the limit; otherwise the smallest are kept or the bond exceeds its limit: " + (probs_sort[0] if probs_sort else ""))
